@@ -6,12 +6,12 @@ out = f"{base}/{p}-out"
 d = f"/verif/seeded/{p}-{suf}"
 os.makedirs(d, exist_ok=True)
 shutil.copy(f"{out}/m{k}.patch", f"{d}/patch.diff")
-demo = [f for f in glob.glob(f"{out}/m{k}-demo.*")][0]
+demo = [f for f in sorted(glob.glob(f"{out}/m{k}-demo.*")) if f.endswith((".py", ".sh", ".rs"))][0]
 shutil.copy(demo, f"{d}/{os.path.basename(demo)}")
 meta_txt = open(f"{out}/m{k}-meta.txt").read()
 open(f"{d}/m{k}-meta.txt", "w").write(meta_txt)
 conf = [l for l in open(f"{base}/confirm-all.txt") if l.startswith(f"{p} m{k} ")]
-head = subprocess_head = os.popen("git -C /repo log --oneline -1 7dbdc0f").read().strip()
+head = subprocess_head = os.popen("git -C /repo log --oneline -1 HEAD").read().strip()
 lines = [l.strip() for l in meta_txt.split("\n") if l.strip()]
 meta = {"property": p, "id": f"{p}-{suf}", "what": " ".join(lines[:3])[:400],
         "needs_to_manifest": next((l for l in lines if re.search(r"needs|manifest", l, re.I)), "")[:400],
